@@ -1,26 +1,1217 @@
-use chia_consensus::merkle_tree::{MerkleSet, validate_merkle_proof};
-use std::time::Instant;
-fn main() {
-    let z = [0u8; 32];
-    let mut z1 = z; z1[31] = 1;
-    let mut z2 = z; z2[31] = 2;
-    for set in [vec![z, z1], vec![z, z1, z2]] {
-        let mut s = set.clone();
-        let t = MerkleSet::from_leafs(&mut s);
-        let root = t.get_root();
-        let t0 = Instant::now();
-        let (inc, p) = t.generate_proof(&z).unwrap();
-        let t1 = t0.elapsed();
-        let t0 = Instant::now();
-        let n = 200;
-        for _ in 0..n { let r = validate_merkle_proof(&p, &z, &root); assert!(matches!(r, Ok(true))); }
-        println!("set {} inc {inc} proof {} bytes gen {:?} validate {:?}", set.len(), p.len(), t1, t0.elapsed() / n);
-        // left chain of k levels ending in EMPTY
-        for k in [250usize, 256, 257, 258] {
-            let mut q = vec![2u8; k]; q.push(0); q.extend(std::iter::repeat(0u8).take(k));
-            let t0 = Instant::now();
-            for _ in 0..n { let _ = std::panic::catch_unwind(|| validate_merkle_proof(&q, &z, &root)); }
-            println!("  chain {k}: {:?} -> {:?}", t0.elapsed() / n, std::panic::catch_unwind(|| validate_merkle_proof(&q, &z, &root).ok()));
+//! C12 — Merkle set roots are canonical, proofs are complete and sound.
+//!
+//! Engine E (bounded-exhaustive enumeration), reference model + adversary.
+//!
+//! Reference (written from the definition of the set hash, see the prose in
+//! tests/merkle_set.py): a set is a binary trie over the 256 leaf bits;
+//!   * the empty sub-trie is (EMPTY, 0^32), a sub-trie with one leaf is (TERMINAL, leaf),
+//!   * a sub-trie with exactly two leaves is (MIDDLE, H(1,1,min,max)) *wherever* it sits
+//!     ("skips repeated hashing of exactly two things even when they share prefix bits"),
+//!   * a sub-trie with three or more leaves is (MIDDLE, H(tl,tr,hl,hr)) of its two halves,
+//!   * H(tl,tr,l,r) = sha256(0^30 || tl || tr || l || r); root = 0^32 / sha256(1||leaf) / hash.
+//! A proof is a pre-order serialisation of a partially truncated, *uncollapsed* trie.
+//!
+//! What is enumerated (every member is run through the real code of /repo):
+//!  (1) roots: every subset of a 12-leaf universe, all orderings / duplications of the small ones;
+//!  (2) completeness: every subset x every query item: generate_proof + validate_merkle_proof;
+//!  (3a) soundness, adversary A: every proof tree with <= N MIDDLE nodes over a per-set leaf alphabet;
+//!  (3b) soundness, adversary B: every single-step rewrite of every honest proof;
+//!  (3c) depth / truncation / trailing-bytes probes on 250..258 level chains.
+//! Oracle for (3): validate_merkle_proof(p, item, root(S)) is never Ok(b) with b != (item in S).
+
+#[path = "/tmp/mut/merkle_set.rs"]
+#[allow(dead_code, unexpected_cfgs)]
+mod merkle_set;
+#[path = "/tmp/mut/merkle_tree.rs"]
+#[allow(dead_code, unexpected_cfgs)]
+mod merkle_tree;
+use merkle_set::compute_merkle_set_root;
+use merkle_tree::{MerkleSet, validate_merkle_proof};
+use mc::report::{Report, Tier, catch, fxhash};
+use mc::sx::sha256;
+use rayon::prelude::*;
+use serde_json::{Value, json};
+use std::collections::BTreeMap;
+
+type Leaf = [u8; 32];
+const BLANK: [u8; 32] = [0; 32];
+
+// ---------------------------------------------------------------------------------------------
+// universes
+// ---------------------------------------------------------------------------------------------
+
+fn mk(first: u8, fill: u8, last: u8) -> Leaf {
+    let mut l = [fill; 32];
+    l[0] = first;
+    l[31] = last;
+    l
+}
+
+/// 12 leaves: all eight 3-bit prefixes; pairs differing only in bit 255 (Z/Z1, F/F1),
+/// only in bit 254 (Z/Z2), only in bit 128 (P4/P4b); 00..00 and ff..ff.
+fn universe() -> Vec<(&'static str, Leaf)> {
+    let p4 = mk(0x80, 0x44, 0x44);
+    let mut p4b = p4;
+    p4b[16] ^= 0x80;
+    vec![
+        ("Z", mk(0x00, 0x00, 0x00)),
+        ("Z1", mk(0x00, 0x00, 0x01)),
+        ("Z2", mk(0x00, 0x00, 0x02)),
+        ("P1", mk(0x20, 0x11, 0x11)),
+        ("P2", mk(0x40, 0x22, 0x22)),
+        ("P3", mk(0x60, 0x33, 0x33)),
+        ("P4", p4),
+        ("P4b", p4b),
+        ("P5", mk(0xa0, 0x55, 0x55)),
+        ("P6", mk(0xc0, 0x66, 0x66)),
+        ("F1", mk(0xff, 0xff, 0xfe)),
+        ("F", mk(0xff, 0xff, 0xff)),
+    ]
+}
+
+/// query items that are in no set: neighbours of the deep pairs, a chain diverger, a leaf neighbour
+fn outsiders() -> Vec<(&'static str, Leaf)> {
+    let mut o2 = mk(0, 0, 0);
+    o2[16] = 0x80;
+    vec![
+        ("O1=00..03", mk(0x00, 0x00, 0x03)),
+        ("O2=0^128|1|0^127", o2),
+        ("O3=P1^bit255", mk(0x20, 0x11, 0x10)),
+        ("O4=e0|0..", mk(0xe0, 0x00, 0x00)),
+    ]
+}
+
+/// shallow 5-leaf universe of adversary A: prefixes 00, 01, 10, 110, 111
+fn shallow_universe() -> Vec<Leaf> {
+    vec![
+        mk(0x00, 0x0a, 0x0a),
+        mk(0x40, 0x0b, 0x0b),
+        mk(0x80, 0x0c, 0x0c),
+        mk(0xc0, 0x0d, 0x0d),
+        mk(0xe0, 0x0e, 0x0e),
+    ]
+}
+fn shallow_outsiders() -> Vec<Leaf> {
+    // prefix 001 (usable as a TERMINAL in candidate proofs) and a bit-255 neighbour of the 111 leaf
+    vec![mk(0x20, 0x0f, 0x0f), mk(0xe0, 0x0e, 0x0b)]
+}
+
+/// medium-depth universe of adversary B: chains of 9..13 levels, so that every rewrite of every proof is cheap.
+/// A/A1/A2 share 12 bits (A, A1 differ in bit 13 only, A2 in bit 12 only): a 3-leaf one-sided run;
+/// C/C1 differ in bit 9 only: a collapsed two-leaf chain; B and D are lone leaves.
+fn medium_universe() -> Vec<Leaf> {
+    let a = mk(0x00, 0xa0, 0xa0);
+    let flip = |mut x: Leaf, b: usize| {
+        x[b / 8] ^= 0x80 >> (b % 8);
+        x
+    };
+    let c = mk(0x80, 0xc0, 0xc0);
+    vec![a, flip(a, 13), flip(a, 12), mk(0x40, 0xb0, 0xb0), c, flip(c, 9), mk(0xff, 0xd0, 0xd0)]
+}
+fn medium_outsiders() -> Vec<Leaf> {
+    let u = medium_universe();
+    let flip = |mut x: Leaf, b: usize| {
+        x[b / 8] ^= 0x80 >> (b % 8);
+        x
+    };
+    // diverges inside the A run, the fourth corner of the A fork, diverges inside the C chain, far away
+    vec![flip(u[0], 5), flip(u[1], 12), flip(u[4], 4), mk(0x20, 0xe0, 0xe0)]
+}
+
+fn subset<T: Copy>(u: &[T], mask: u32) -> Vec<T> {
+    u.iter().enumerate().filter(|(i, _)| mask >> i & 1 == 1).map(|(_, x)| *x).collect()
+}
+
+// ---------------------------------------------------------------------------------------------
+// reference model (independent of /repo)
+// ---------------------------------------------------------------------------------------------
+
+fn bit(x: &Leaf, i: usize) -> bool {
+    (x[i / 8] >> (7 - (i % 8))) & 1 == 1
+}
+
+fn hnode(tl: u8, tr: u8, l: &[u8; 32], r: &[u8; 32]) -> [u8; 32] {
+    sha256(&[&[0u8; 30], &[tl, tr], l, r])
+}
+
+fn sorted_set(leaves: &[Leaf]) -> Vec<Leaf> {
+    let mut v = leaves.to_vec();
+    v.sort_unstable();
+    v.dedup();
+    v
+}
+
+/// (type, hash) of the sub-trie holding `set` (sorted, distinct, all sharing the first `depth` bits);
+/// every MIDDLE hash that occurs is appended to `collect`, flagged true when both halves are inhabited
+/// (a two-leaf node counts as such a fork)
+fn ref_node(set: &[Leaf], depth: usize, collect: &mut Vec<([u8; 32], bool)>) -> (u8, [u8; 32]) {
+    match set.len() {
+        0 => (0, BLANK),
+        1 => (1, set[0]),
+        2 => {
+            let h = hnode(1, 1, &set[0], &set[1]);
+            collect.push((h, true));
+            (2, h)
+        }
+        _ => {
+            let p = set.partition_point(|x| !bit(x, depth));
+            let (tl, hl) = ref_node(&set[..p], depth + 1, collect);
+            let (tr, hr) = ref_node(&set[p..], depth + 1, collect);
+            let h = hnode(tl, tr, &hl, &hr);
+            collect.push((h, p > 0 && p < set.len())); // a fork, or one level of a one-sided run
+            (2, h)
         }
     }
+}
+
+fn compress(t: u8, h: &[u8; 32]) -> [u8; 32] {
+    match t {
+        0 => BLANK,
+        1 => sha256(&[&[1u8], h]),
+        _ => *h,
+    }
+}
+
+fn ref_root(set: &[Leaf]) -> [u8; 32] {
+    let (t, h) = ref_node(set, 0, &mut Vec::new());
+    compress(t, &h)
+}
+
+// ---------------------------------------------------------------------------------------------
+// proof model: pre-order token list
+// ---------------------------------------------------------------------------------------------
+
+#[derive(Clone, Copy, PartialEq, Eq, Hash, Debug)]
+enum Tok {
+    E,
+    T(Leaf),
+    Tr([u8; 32]),
+    M,
+}
+
+fn ser_into(toks: &[Tok], out: &mut Vec<u8>) {
+    out.clear();
+    for t in toks {
+        match t {
+            Tok::E => out.push(0),
+            Tok::T(x) => {
+                out.push(1);
+                out.extend_from_slice(x);
+            }
+            Tok::M => out.push(2),
+            Tok::Tr(h) => {
+                out.push(3);
+                out.extend_from_slice(h);
+            }
+        }
+    }
+}
+fn ser(toks: &[Tok]) -> Vec<u8> {
+    let mut v = Vec::new();
+    ser_into(toks, &mut v);
+    v
+}
+
+/// own parser: exactly one complete tree, nothing after it
+fn parse(b: &[u8]) -> Option<Vec<Tok>> {
+    let mut out = Vec::new();
+    let mut need = 1usize;
+    let mut i = 0;
+    while need > 0 {
+        let t = *b.get(i)?;
+        i += 1;
+        need -= 1;
+        match t {
+            0 => out.push(Tok::E),
+            2 => {
+                out.push(Tok::M);
+                need += 2;
+            }
+            1 | 3 => {
+                let h: [u8; 32] = b.get(i..i + 32)?.try_into().ok()?;
+                i += 32;
+                out.push(if t == 1 { Tok::T(h) } else { Tok::Tr(h) });
+            }
+            _ => return None,
+        }
+    }
+    if i == b.len() { Some(out) } else { None }
+}
+
+/// per token: end of its subtree, reference (kind, hash) with kind 0 empty / 1 terminal / 2 middle /
+/// 3 middle that is a two-leaf node or an (empty, two-leaf) chain above one; depth of the token
+struct Ann {
+    end: Vec<usize>,
+    kind: Vec<u8>,
+    hash: Vec<[u8; 32]>,
+    depth: Vec<u16>,
+    /// index of the MIDDLE token this token is a child of (usize::MAX for the root)
+    parent: Vec<usize>,
+    /// route (bit path) of every TRUNCATED token
+    tr_routes: Vec<(usize, Vec<bool>)>,
+}
+
+fn annotate(toks: &[Tok]) -> Ann {
+    let n = toks.len();
+    let mut a = Ann { end: vec![0; n], kind: vec![0; n], hash: vec![BLANK; n], depth: vec![0; n], parent: vec![usize::MAX; n], tr_routes: Vec::new() };
+    fn go(toks: &[Tok], i: usize, route: &mut Vec<bool>, a: &mut Ann) -> usize {
+        a.depth[i] = route.len() as u16;
+        match toks[i] {
+            Tok::E => {
+                a.kind[i] = 0;
+                a.end[i] = i + 1;
+            }
+            Tok::T(x) => {
+                a.kind[i] = 1;
+                a.hash[i] = x;
+                a.end[i] = i + 1;
+            }
+            Tok::Tr(h) => {
+                a.kind[i] = 2;
+                a.hash[i] = h;
+                a.end[i] = i + 1;
+                a.tr_routes.push((i, route.clone()));
+            }
+            Tok::M => {
+                let l = i + 1;
+                route.push(false);
+                let r = go(toks, l, route, a);
+                route.pop();
+                route.push(true);
+                let e = go(toks, r, route, a);
+                route.pop();
+                a.end[i] = e;
+                a.parent[l] = i;
+                a.parent[r] = i;
+                let (kl, kr) = (a.kind[l], a.kind[r]);
+                if kl == 0 && kr == 3 {
+                    a.kind[i] = 3;
+                    a.hash[i] = a.hash[r];
+                } else if kr == 0 && kl == 3 {
+                    a.kind[i] = 3;
+                    a.hash[i] = a.hash[l];
+                } else {
+                    a.kind[i] = if kl == 1 && kr == 1 { 3 } else { 2 };
+                    a.hash[i] = hnode(kl.min(2), kr.min(2), &a.hash[l], &a.hash[r]);
+                }
+            }
+        }
+        a.end[i]
+    }
+    let e = go(toks, 0, &mut Vec::new(), &mut a);
+    assert_eq!(e, n, "annotate: token list is not one tree");
+    a
+}
+
+fn proof_root(a: &Ann) -> [u8; 32] {
+    compress(a.kind[0].min(2), &a.hash[0])
+}
+
+/// the complete, untruncated proof tree of a sub-trie (own prover)
+fn full_tree(set: &[Leaf], depth: usize, out: &mut Vec<Tok>) {
+    match set.len() {
+        0 => out.push(Tok::E),
+        1 => out.push(Tok::T(set[0])),
+        2 => {
+            out.push(Tok::M);
+            let (ba, bb) = (bit(&set[0], depth), bit(&set[1], depth));
+            if ba != bb {
+                out.push(Tok::T(set[0]));
+                out.push(Tok::T(set[1]));
+            } else if ba {
+                out.push(Tok::E);
+                full_tree(set, depth + 1, out);
+            } else {
+                full_tree(set, depth + 1, out);
+                out.push(Tok::E);
+            }
+        }
+        _ => {
+            out.push(Tok::M);
+            let p = set.partition_point(|x| !bit(x, depth));
+            full_tree(&set[..p], depth + 1, out);
+            full_tree(&set[p..], depth + 1, out);
+        }
+    }
+}
+
+// ---------------------------------------------------------------------------------------------
+// calling the real code
+// ---------------------------------------------------------------------------------------------
+
+#[derive(Clone, PartialEq, Eq, Debug)]
+enum Verdict {
+    Err,
+    Ok(bool),
+    Panic(String),
+}
+
+fn real_validate(p: &[u8], item: &Leaf, root: &[u8; 32]) -> Verdict {
+    match catch(|| validate_merkle_proof(p, item, root)) {
+        Ok(Ok(b)) => Verdict::Ok(b),
+        Ok(Err(_)) => Verdict::Err,
+        Err(m) => Verdict::Panic(m),
+    }
+}
+
+fn hexes(v: &[Leaf]) -> Vec<String> {
+    v.iter().map(hex::encode).collect()
+}
+
+/// per-task accumulator, flushed once
+#[derive(Default)]
+struct Acc {
+    evals: u64,
+    buckets: BTreeMap<&'static str, u64>,
+    distinct: Vec<u64>,
+    viols: Vec<(String, Value, String)>,
+    suppressed: u64,
+}
+impl Acc {
+    fn bump(&mut self, b: &'static str) {
+        *self.buckets.entry(b).or_insert(0) += 1;
+    }
+    fn viol(&mut self, sig: &str, case: Value, detail: String) {
+        if self.viols.iter().filter(|v| v.0 == sig).count() < 4 {
+            self.viols.push((sig.to_string(), case, detail));
+        } else {
+            self.suppressed += 1;
+        }
+    }
+    fn flush(self, rep: &Report) {
+        rep.evals(self.evals);
+        for (b, n) in self.buckets {
+            rep.outcome_n(b, n);
+        }
+        rep.distinct_many(self.distinct);
+        for (s, c, d) in self.viols {
+            rep.violation(&s, c, d);
+        }
+        if self.suppressed > 0 {
+            rep.extra_add("violations_not_individually_recorded", self.suppressed);
+        }
+    }
+}
+
+/// the soundness oracle: one candidate proof, one item, honest root of `set`
+#[allow(clippy::too_many_arguments)]
+fn check_candidate(
+    acc: &mut Acc,
+    phase: &'static str,
+    buckets: [&'static str; 3],
+    set: &[Leaf],
+    root: &[u8; 32],
+    proof: &[u8],
+    item: &Leaf,
+    origin: &str,
+) -> Verdict {
+    acc.evals += 1;
+    let member = set.contains(item);
+    let v = real_validate(proof, item, root);
+    match &v {
+        Verdict::Err => acc.bump(buckets[0]),
+        Verdict::Ok(b) if *b == member => acc.bump(if member { buckets[1] } else { buckets[2] }),
+        Verdict::Ok(b) => {
+            let sig = if member { "C12/proof/accepts-wrong-exclusion" } else { "C12/proof/accepts-wrong-inclusion" };
+            acc.viol(
+                sig,
+                json!({"kind":"proof","set":hexes(set),"item":hex::encode(item),"proof":hex::encode(proof),"origin":format!("{phase}:{origin}")}),
+                format!(
+                    "validate_merkle_proof returned Ok({b}) for item {} against the root of a set that {} it; candidate ({origin}) = {}",
+                    hex::encode(item),
+                    if member { "contains" } else { "does not contain" },
+                    hex::encode(proof)
+                ),
+            );
+        }
+        Verdict::Panic(m) => {
+            acc.viol(
+                "C12/proof/panic",
+                json!({"kind":"proof","set":hexes(set),"item":hex::encode(item),"proof":hex::encode(proof),"origin":format!("{phase}:{origin}")}),
+                format!("validate_merkle_proof panicked ({m}) on candidate ({origin}) {}", hex::encode(proof)),
+            );
+        }
+    }
+    v
+}
+
+// ---------------------------------------------------------------------------------------------
+// (1) roots
+// ---------------------------------------------------------------------------------------------
+
+fn check_root_seq(acc: &mut Acc, seq: &[Leaf], want: &[u8; 32], what: &'static str) {
+    acc.evals += 1;
+    let mut s1 = seq.to_vec();
+    let r1 = catch(|| compute_merkle_set_root(&mut s1));
+    let mut s2 = seq.to_vec();
+    let r2 = catch(|| MerkleSet::from_leafs(&mut s2).get_root());
+    let ok = matches!((&r1, &r2), (Ok(a), Ok(b)) if a == want && b == want);
+    if ok {
+        acc.bump(what);
+    } else {
+        let show = |r: &Result<[u8; 32], String>| match r {
+            Ok(h) => hex::encode(h),
+            Err(p) => format!("panic: {p}"),
+        };
+        let sig = match (&r1, &r2) {
+            (Err(_), _) | (_, Err(_)) => "C12/root/panic",
+            (Ok(a), Ok(b)) if a != b => "C12/root/two-computations-disagree",
+            _ => "C12/root/differs-from-reference",
+        };
+        acc.viol(
+            sig,
+            json!({"kind":"root","seq":hexes(seq)}),
+            format!("leaf sequence {:?}: compute_merkle_set_root={} MerkleSet::from_leafs().get_root()={} reference={}", hexes(seq), show(&r1), show(&r2), hex::encode(want)),
+        );
+    }
+}
+
+/// all distinct permutations of a multiset (sorted input), lexicographic
+fn multiset_perms(sorted: &[Leaf], f: &mut impl FnMut(&[Leaf])) {
+    let mut v = sorted.to_vec();
+    loop {
+        f(&v);
+        // next_permutation
+        let n = v.len();
+        if n < 2 {
+            return;
+        }
+        let mut i = n - 1;
+        while i > 0 && v[i - 1] >= v[i] {
+            i -= 1;
+        }
+        if i == 0 {
+            return;
+        }
+        let mut j = n - 1;
+        while v[j] <= v[i - 1] {
+            j -= 1;
+        }
+        v.swap(i - 1, j);
+        v[i..].reverse();
+    }
+}
+
+fn phase_roots(rep: &Report, u: &[Leaf]) {
+    let n = u.len();
+    (0u32..1 << n).into_par_iter().for_each(|mask| {
+        let mut acc = Acc::default();
+        let set = sorted_set(&subset(u, mask));
+        let want = ref_root(&set);
+        acc.distinct.push(fxhash(&("root", mask)));
+        // every subset: ascending, descending, rotated, every element twice, every element three times interleaved
+        check_root_seq(&mut acc, &set, &want, "root/ascending");
+        let mut rev = set.clone();
+        rev.reverse();
+        check_root_seq(&mut acc, &rev, &want, "root/descending");
+        if set.len() > 2 {
+            let mut rot = set.clone();
+            rot.rotate_left(set.len() / 2);
+            check_root_seq(&mut acc, &rot, &want, "root/rotated");
+            // interleave: evens then odds
+            let il: Vec<Leaf> = set.iter().step_by(2).chain(set.iter().skip(1).step_by(2)).copied().collect();
+            check_root_seq(&mut acc, &il, &want, "root/interleaved");
+        }
+        let dbl: Vec<Leaf> = set.iter().chain(rev.iter()).copied().collect();
+        check_root_seq(&mut acc, &dbl, &want, "root/all-duplicated");
+        let tri: Vec<Leaf> = rev.iter().chain(set.iter()).chain(set.iter()).copied().collect();
+        check_root_seq(&mut acc, &tri, &want, "root/all-triplicated");
+        if set.len() <= 4 {
+            // every ordering, and every ordering of the set with any one element duplicated / triplicated
+            multiset_perms(&set, &mut |p| check_root_seq(&mut acc, p, &want, "root/small/permutation"));
+            for d in 0..set.len() {
+                let mut ms = set.clone();
+                ms.push(set[d]);
+                ms.sort_unstable();
+                multiset_perms(&ms, &mut |p| check_root_seq(&mut acc, p, &want, "root/small/permutation-with-duplicate"));
+                if set.len() <= 3 {
+                    ms.push(set[d]);
+                    ms.sort_unstable();
+                    multiset_perms(&ms, &mut |p| check_root_seq(&mut acc, p, &want, "root/small/permutation-with-triplicate"));
+                }
+            }
+        }
+        acc.flush(rep);
+    });
+}
+
+// ---------------------------------------------------------------------------------------------
+// (2) completeness  +  (3b) rewrites of honest proofs
+// ---------------------------------------------------------------------------------------------
+
+/// every single-step rewrite of a proof tree; `f(tag, tokens)` is called for each result that differs
+/// from the input
+fn rewrites(toks: &[Tok], a: &Ann, set: &[Leaf], item: &Leaf, f: &mut impl FnMut(&'static str, &[Tok])) {
+    let n = toks.len();
+    let mut buf: Vec<Tok> = Vec::with_capacity(n + 600);
+    macro_rules! emit {
+        ($tag:expr) => {{
+            if buf.as_slice() != toks {
+                f($tag, &buf);
+            }
+        }};
+    }
+    macro_rules! splice {
+        ($tag:expr, $i:expr, $repl:expr) => {{
+            buf.clear();
+            buf.extend_from_slice(&toks[..$i]);
+            buf.extend_from_slice($repl);
+            buf.extend_from_slice(&toks[a.end[$i]..]);
+            emit!($tag);
+        }};
+    }
+    for i in 0..n {
+        match toks[i] {
+            Tok::M => {
+                let l = i + 1;
+                let r = a.end[l];
+                let e = a.end[i];
+                // swap the two children
+                buf.clear();
+                buf.extend_from_slice(&toks[..=i]);
+                buf.extend_from_slice(&toks[r..e]);
+                buf.extend_from_slice(&toks[l..r]);
+                buf.extend_from_slice(&toks[e..]);
+                emit!("swap-children");
+                // truncate the subtree to its hash
+                splice!("truncate-subtree", i, &[Tok::Tr(a.hash[i])]);
+                // drop one (EMPTY, X) level
+                if toks[l] == Tok::E {
+                    let x = toks[r..e].to_vec();
+                    splice!("drop-chain-level", i, &x);
+                } else if toks[r] == Tok::E && r + 1 == e {
+                    let x = toks[l..r].to_vec();
+                    splice!("drop-chain-level", i, &x);
+                }
+                // flip a whole maximal (EMPTY, X) chain starting here (only at the chain top)
+                let is_chain = |j: usize| toks[j] == Tok::M && (toks[j + 1] == Tok::E || (toks[a.end[j + 1]] == Tok::E));
+                let parent_is_chain = a.parent[i] != usize::MAX && is_chain(a.parent[i]);
+                if is_chain(i) && !parent_is_chain {
+                    // walk down the chain collecting its levels
+                    let mut levels = 0;
+                    let mut j = i;
+                    let mut sides = Vec::new(); // true = EMPTY is on the left
+                    while is_chain(j) {
+                        let empty_left = toks[j + 1] == Tok::E;
+                        sides.push(empty_left);
+                        j = if empty_left { j + 2 } else { j + 1 };
+                        levels += 1;
+                    }
+                    if levels >= 2 {
+                        // j is the chain bottom X; rebuild with every level mirrored
+                        let x = toks[j..a.end[j]].to_vec();
+                        let mut rep: Vec<Tok> = Vec::new();
+                        for s in &sides {
+                            rep.push(Tok::M);
+                            if !*s {
+                                rep.push(Tok::E);
+                            }
+                        }
+                        rep.extend_from_slice(&x);
+                        for s in sides.iter().rev() {
+                            if *s {
+                                rep.push(Tok::E);
+                            }
+                        }
+                        splice!("mirror-whole-chain", i, &rep);
+                    }
+                }
+                // add one (EMPTY, X) level above this node
+                let x = toks[i..e].to_vec();
+                let mut rep = vec![Tok::M, Tok::E];
+                rep.extend_from_slice(&x);
+                splice!("add-chain-level-right", i, &rep);
+                let mut rep = vec![Tok::M];
+                rep.extend_from_slice(&x);
+                rep.push(Tok::E);
+                splice!("add-chain-level-left", i, &rep);
+            }
+            Tok::T(x) => {
+                splice!("retype-terminal-as-truncated", i, &[Tok::Tr(x)]);
+                splice!("retype-terminal-as-truncated-leafhash", i, &[Tok::Tr(sha256(&[&[1u8], &x]))]);
+                splice!("terminal-to-empty", i, &[Tok::E]);
+                if x != *item {
+                    splice!("terminal-to-item", i, &[Tok::T(*item)]);
+                }
+            }
+            Tok::E => {
+                splice!("retype-empty-as-truncated-blank", i, &[Tok::Tr(BLANK)]);
+                splice!("retype-empty-as-terminal-blank", i, &[Tok::T(BLANK)]);
+                splice!("empty-to-item", i, &[Tok::T(*item)]);
+            }
+            Tok::Tr(h) => {
+                splice!("retype-truncated-as-terminal", i, &[Tok::T(h)]);
+                splice!("truncated-to-empty", i, &[Tok::E]);
+                splice!("truncated-to-item", i, &[Tok::T(*item)]);
+                let mut rep = vec![Tok::M, Tok::E, Tok::Tr(h)];
+                splice!("add-chain-level-right", i, &rep);
+                rep = vec![Tok::M, Tok::Tr(h), Tok::E];
+                splice!("add-chain-level-left", i, &rep);
+            }
+        }
+    }
+    // expand every TRUNCATED node into the real sub-trie (fully, and by one level)
+    for (i, route) in &a.tr_routes {
+        let sub: Vec<Leaf> = set.iter().filter(|x| route.iter().enumerate().all(|(p, b)| bit(x, p) == *b)).copied().collect();
+        if sub.is_empty() {
+            continue;
+        }
+        let mut full = Vec::new();
+        full_tree(&sub, route.len(), &mut full);
+        let i = *i;
+        splice!("expand-truncated-fully", i, &full);
+        if full[0] == Tok::M {
+            let fa = annotate(&full);
+            let l = 1;
+            let r = fa.end[l];
+            let one = |j: usize| match full[j] {
+                Tok::M => Tok::Tr(fa.hash[j]),
+                t => t,
+            };
+            // one level only makes sense where the children are not a collapsed chain; emit anyway, the verifier decides
+            let rep = vec![Tok::M, one(l), one(r)];
+            splice!("expand-truncated-one-level", i, &rep);
+        }
+    }
+}
+
+struct ProofJob {
+    mask: u32,
+    /// run adversary B (rewrites, prefixes, trailing bytes) on the honest proofs of this set
+    rewrites: bool,
+    /// also rewrites of rewrites
+    second_order: bool,
+}
+
+/// proofs with at most this many tokens get every rewrite validated against every item and every
+/// prefix; longer ones (the 250-level chains) against the proof's own item and 8 prefixes
+const SHORT_PROOF_TOKENS: usize = 64;
+
+fn phase_proofs(rep: &Report, uni: &'static str, u: &[Leaf], items: &[Leaf], jobs: &[ProofJob]) {
+    // work unit = (job, item)
+    let units: Vec<(usize, usize)> = (0..jobs.len()).flat_map(|j| (0..items.len()).map(move |i| (j, i))).collect();
+    units.par_iter().for_each(|&(j, ii)| {
+        let job = &jobs[j];
+        let mut acc = Acc::default();
+        let set = sorted_set(&subset(u, job.mask));
+        let root = ref_root(&set);
+        let item = items[ii];
+        let member = set.contains(&item);
+        acc.distinct.push(fxhash(&("proof", uni, job.mask, ii)));
+
+        // two different construction orders of the same set (the second one with duplicates)
+        let mut order_a = set.clone();
+        let mut order_b: Vec<Leaf> = set.iter().rev().chain(set.iter()).copied().collect();
+        let mut honest: Option<Vec<u8>> = None;
+        for (which, seq) in [("ascending", &mut order_a), ("descending+duplicates", &mut order_b)] {
+            acc.evals += 1;
+            let case = json!({"kind":"honest","set":hexes(&set),"item":hex::encode(item),"order":which});
+            let r = catch(|| {
+                let t = MerkleSet::from_leafs(seq);
+                let tr = t.get_root();
+                (tr, t.generate_proof(&item))
+            });
+            let (tree_root, gp) = match r {
+                Ok(x) => x,
+                Err(p) => {
+                    acc.viol("C12/complete/panic", case, format!("from_leafs/generate_proof panicked: {p}"));
+                    continue;
+                }
+            };
+            let Ok((stated, proof)) = gp else {
+                acc.viol("C12/complete/generate-proof-fails", case, "generate_proof returned Err on a tree built by from_leafs".into());
+                continue;
+            };
+            if stated != member {
+                acc.viol(
+                    "C12/complete/prover-states-wrong-membership",
+                    case.clone(),
+                    format!("generate_proof stated included={stated} but item {} the set", if member { "is in" } else { "is not in" }),
+                );
+            }
+            // the proof must verify against the root (the tree's own and the reference one are equal by (1))
+            let v = real_validate(&proof, &item, &tree_root);
+            if v != Verdict::Ok(member) {
+                acc.viol(
+                    "C12/complete/honest-proof-does-not-verify",
+                    case.clone(),
+                    format!("validate_merkle_proof(honest proof, item, tree root) = {v:?}, want Ok({member}); proof {}", hex::encode(&proof)),
+                );
+            } else if tree_root == root {
+                acc.bump(if member { "complete/inclusion-verified" } else { "complete/exclusion-verified" });
+            }
+            if tree_root != root {
+                acc.viol("C12/root/differs-from-reference", json!({"kind":"root","seq":hexes(&set)}), format!("tree root {} reference {}", hex::encode(tree_root), hex::encode(root)));
+            }
+            // reading of the proof by the harness' own model of the format: one tree, hashing to the reference root
+            match parse(&proof) {
+                Some(t) if proof_root(&annotate(&t)) == root => {}
+                other => acc.viol(
+                    "C12/complete/proof-not-in-defined-format",
+                    case,
+                    format!("honest proof does not read as a proof tree hashing to the reference root (parsed: {}); proof {}", other.is_some(), hex::encode(&proof)),
+                ),
+            }
+            if honest.is_none() {
+                honest = Some(proof);
+            }
+        }
+
+        // ---- adversary B
+        let Some(proof) = honest else {
+            acc.flush(rep);
+            return;
+        };
+        if !job.rewrites {
+            acc.flush(rep);
+            return;
+        }
+        let Some(toks) = parse(&proof) else {
+            acc.flush(rep);
+            return;
+        };
+        let ann = annotate(&toks);
+        let own = [item];
+        let short = toks.len() <= SHORT_PROOF_TOKENS;
+        let targets: &[Leaf] = if short { items } else { &own };
+        let mut bytes = Vec::with_capacity(proof.len() + 1200);
+        const B: [&str; 3] = ["rewrite/rejected", "rewrite/accepted-true-correct", "rewrite/accepted-false-correct"];
+        let mut second: Vec<Vec<Tok>> = Vec::new();
+        rewrites(&toks, &ann, &set, &item, &mut |tag, t| {
+            ser_into(t, &mut bytes);
+            let mut accepted = false;
+            for it in targets {
+                if let Verdict::Ok(_) = check_candidate(&mut acc, "rewrite", B, &set, &root, &bytes, it, tag) {
+                    accepted = true;
+                }
+            }
+            if accepted {
+                acc.distinct.push(fxhash(&("rw", uni, job.mask, &bytes)));
+            }
+            if short && job.second_order {
+                second.push(t.to_vec());
+            }
+        });
+        const B2: [&str; 3] = ["rewrite2/rejected", "rewrite2/accepted-true-correct", "rewrite2/accepted-false-correct"];
+        for t1 in &second {
+            let a1 = annotate(t1);
+            rewrites(t1, &a1, &set, &item, &mut |tag, t| {
+                ser_into(t, &mut bytes);
+                check_candidate(&mut acc, "rewrite2", B2, &set, &root, &bytes, &item, tag);
+            });
+        }
+        {
+            const BT: [&str; 3] = ["prefix/rejected", "prefix/accepted-true-correct", "prefix/accepted-false-correct"];
+            const BA: [&str; 3] = ["trailing/rejected", "trailing/accepted-true-correct(malleable)", "trailing/accepted-false-correct(malleable)"];
+            // every proper prefix that ends at a token boundary, one byte after it, or one byte before it
+            let mut cut = 0usize;
+            let mut cuts = vec![];
+            for t in &toks {
+                cuts.extend([cut.saturating_sub(1), cut, cut + 1]);
+                cut += if matches!(t, Tok::E | Tok::M) { 1 } else { 33 };
+            }
+            cuts.push(cut - 1);
+            if !short {
+                let n = proof.len();
+                cuts = vec![1, 2, 34, n / 2, n - 34, n - 33, n - 2, n - 1];
+            }
+            cuts.sort_unstable();
+            cuts.dedup();
+            for c in cuts {
+                if c < proof.len() {
+                    for it in targets {
+                        check_candidate(&mut acc, "bytes", BT, &set, &root, &proof[..c], it, "prefix-of-honest-proof");
+                    }
+                }
+            }
+            // trailing bytes: every single byte value of the format and beyond, and whole extra tokens
+            let mut tails: Vec<Vec<u8>> = vec![vec![0], vec![1], vec![2], vec![3], vec![4], vec![0xff], vec![0, 0], vec![2, 0, 0]];
+            tails.push(ser(&[Tok::T(item)]));
+            tails.push(ser(&[Tok::Tr(root)]));
+            tails.push(proof.clone());
+            for tail in tails {
+                bytes.clear();
+                bytes.extend_from_slice(&proof);
+                bytes.extend_from_slice(&tail);
+                for it in targets {
+                    check_candidate(&mut acc, "bytes", BA, &set, &root, &bytes, it, "honest-proof-plus-trailing-bytes");
+                }
+            }
+        }
+        acc.flush(rep);
+    });
+}
+
+// ---------------------------------------------------------------------------------------------
+// (3a) bounded-exhaustive proof trees
+// ---------------------------------------------------------------------------------------------
+
+/// all binary tree shapes with m internal nodes, pre-order, true = MIDDLE, false = leaf slot
+fn shapes(m: usize) -> Vec<Vec<bool>> {
+    if m == 0 {
+        return vec![vec![false]];
+    }
+    let mut out = Vec::new();
+    for i in 0..m {
+        for l in shapes(i) {
+            for r in shapes(m - 1 - i) {
+                let mut s = vec![true];
+                s.extend_from_slice(&l);
+                s.extend_from_slice(&r);
+                out.push(s);
+            }
+        }
+    }
+    out
+}
+
+/// leaf alphabet of adversary A for one set
+fn alphabet(set: &[Leaf], terminals: &[Leaf], shallow: bool) -> Vec<Tok> {
+    let mut a = vec![Tok::E];
+    for t in terminals {
+        a.push(Tok::T(*t));
+    }
+    let mut nodes = Vec::new();
+    let (t, h) = ref_node(set, 0, &mut nodes);
+    // shallow universe: every honest subtree hash; deep universe: forks only (a one-sided run has 254 levels)
+    let mut hs: Vec<[u8; 32]> = nodes.iter().filter(|n| shallow || n.1).map(|n| n.0).collect();
+    hs.push(compress(t, &h)); // the root itself (differs from the node hash for 0/1 element sets)
+    if shallow {
+        hs.push(BLANK);
+        hs.extend_from_slice(set); // leaf values typed as TRUNCATED
+    }
+    let mut seen = Vec::new();
+    for h in hs {
+        if !seen.contains(&h) {
+            seen.push(h);
+            a.push(Tok::Tr(h));
+        }
+    }
+    a
+}
+
+#[allow(clippy::too_many_arguments)]
+fn enumerate_trees(
+    acc: &mut Acc,
+    phase: &'static str,
+    buckets: [&'static str; 3],
+    set: &[Leaf],
+    root: &[u8; 32],
+    items: &[Leaf],
+    shape: &[bool],
+    alpha: &[Tok],
+    fixed_first: Option<usize>,
+    wrap: &dyn Fn(&[Tok], &mut Vec<Tok>),
+    distinct_tag: u64,
+) {
+    let slots = shape.iter().filter(|m| !**m).count();
+    let mut idx = vec![0usize; slots];
+    if let Some(f) = fixed_first {
+        idx[0] = f;
+    }
+    let lo = if fixed_first.is_some() { 1 } else { 0 };
+    let mut toks: Vec<Tok> = Vec::with_capacity(shape.len());
+    let mut wrapped: Vec<Tok> = Vec::new();
+    let mut bytes = Vec::new();
+    loop {
+        toks.clear();
+        let mut s = 0;
+        for m in shape {
+            if *m {
+                toks.push(Tok::M);
+            } else {
+                toks.push(alpha[idx[s]]);
+                s += 1;
+            }
+        }
+        wrapped.clear();
+        wrap(&toks, &mut wrapped);
+        ser_into(&wrapped, &mut bytes);
+        let mut accepted = false;
+        for it in items {
+            if let Verdict::Ok(_) = check_candidate(acc, phase, buckets, set, root, &bytes, it, "enumerated-tree") {
+                accepted = true;
+            }
+        }
+        if accepted {
+            acc.distinct.push(fxhash(&(distinct_tag, &bytes)));
+        }
+        // odometer
+        let mut k = slots;
+        loop {
+            if k == lo {
+                return;
+            }
+            k -= 1;
+            idx[k] += 1;
+            if idx[k] < alpha.len() {
+                break;
+            }
+            idx[k] = 0;
+        }
+    }
+}
+
+fn phase_trees(rep: &Report, max_middles: usize) -> u64 {
+    let v = shallow_universe();
+    let outs = shallow_outsiders();
+    let items: Vec<Leaf> = v.iter().chain(outs.iter()).copied().collect();
+    let terminals: Vec<Leaf> = v.iter().copied().chain([outs[0]]).collect();
+    let all_shapes: Vec<Vec<bool>> = (0..=max_middles).flat_map(shapes).collect();
+    // task = (set, shape, first letter)
+    let mut tasks = Vec::new();
+    let mut total: u64 = 0;
+    for mask in 0u32..1 << v.len() {
+        let set = sorted_set(&subset(&v, mask));
+        let alpha = alphabet(&set, &terminals, true);
+        for (si, sh) in all_shapes.iter().enumerate() {
+            let slots = sh.iter().filter(|m| !**m).count();
+            total += (alpha.len() as u64).pow(slots as u32);
+            for f in 0..alpha.len() {
+                tasks.push((mask, si, f));
+            }
+        }
+    }
+    const B: [&str; 3] = ["tree/rejected", "tree/accepted-true-correct", "tree/accepted-false-correct"];
+    tasks.par_iter().for_each(|&(mask, si, f)| {
+        let mut acc = Acc::default();
+        let set = sorted_set(&subset(&v, mask));
+        let root = ref_root(&set);
+        let alpha = alphabet(&set, &terminals, true);
+        enumerate_trees(&mut acc, "tree", B, &set, &root, &items, &all_shapes[si], &alpha, Some(f), &|t, out| out.extend_from_slice(t), mask as u64);
+        acc.flush(rep);
+    });
+    total
+}
+
+// ---------------------------------------------------------------------------------------------
+// (3c) deep chains around the depth limit
+// ---------------------------------------------------------------------------------------------
+
+fn phase_depth(rep: &Report, quick: bool) -> u64 {
+    let term_middles = if quick { 1 } else { 2 };
+    let u = universe();
+    let pick = |n: &str| u.iter().find(|x| x.0 == n).unwrap().1;
+    let names: &[&str] = &["Z", "Z1", "Z2", "F1", "F"];
+    let d: Vec<Leaf> = names.iter().map(|n| pick(n)).collect();
+    let outs = outsiders();
+    let items: Vec<Leaf> = d.iter().copied().chain([outs[0].1, outs[1].1, outs[3].1]).collect();
+    let term_shapes: Vec<Vec<bool>> = (0..=term_middles).flat_map(shapes).collect();
+    let lengths: Vec<usize> = if quick { (252..=258).collect() } else { (250..=258).collect() };
+    let tops = if quick { 2 } else { 3usize };
+    let mut tasks = Vec::new();
+    let total = std::sync::atomic::AtomicU64::new(0);
+    for mask in 1u32..1 << d.len() {
+        for si in 0..term_shapes.len() {
+            for right in [false, true] {
+                for top in 0..tops {
+                    for &k in &lengths {
+                        tasks.push((mask, si, right, top, k));
+                    }
+                }
+            }
+        }
+    }
+    const B: [&str; 3] = ["deep/rejected", "deep/accepted-true-correct", "deep/accepted-false-correct"];
+    tasks.par_iter().for_each(|&(mask, si, right, top, k)| {
+        let mut acc = Acc::default();
+        let set = sorted_set(&subset(&d, mask));
+        let root = ref_root(&set);
+        // TERMINALs: the universe leaves on the chain's side (the others fail the position audit at level 0)
+        let family: Vec<Leaf> = d.iter().filter(|x| bit(x, 0) == right).copied().collect();
+        let alpha = alphabet(&set, &family, false);
+        // sibling of the first chain level: EMPTY, or the honest other half (truncated, or as the real subtree)
+        let other: Vec<Leaf> = set.iter().filter(|x| bit(x, 0) != right).copied().collect();
+        let mut top_sibling: Vec<Tok> = Vec::new();
+        match top {
+            0 => top_sibling.push(Tok::E),
+            1 => {
+                let (t, h) = ref_node(&other, 1, &mut Vec::new());
+                top_sibling.push(match t {
+                    0 => Tok::E,
+                    1 => Tok::T(h),
+                    _ => Tok::Tr(h),
+                });
+            }
+            _ => full_tree(&other, 1, &mut top_sibling),
+        }
+        if (top > 0 && other.is_empty()) || (top > 1 && other.len() < 2) {
+            return; // same candidate as a smaller `top`
+        }
+        let wrap = |t: &[Tok], out: &mut Vec<Tok>| {
+            // k chain levels going left (right == false) or right, then the terminator
+            for lvl in 0..k {
+                out.push(Tok::M);
+                if right {
+                    if lvl == 0 {
+                        out.extend_from_slice(&top_sibling);
+                    } else {
+                        out.push(Tok::E);
+                    }
+                }
+            }
+            out.extend_from_slice(t);
+            if !right {
+                for lvl in (0..k).rev() {
+                    if lvl == 0 {
+                        out.extend_from_slice(&top_sibling);
+                    } else {
+                        out.push(Tok::E);
+                    }
+                }
+            }
+        };
+        enumerate_trees(&mut acc, "deep", B, &set, &root, &items, &term_shapes[si], &alpha, None, &wrap, 0x1000 + mask as u64);
+        total.fetch_add(acc.evals / items.len() as u64, std::sync::atomic::Ordering::Relaxed);
+        acc.flush(rep);
+    });
+    total.into_inner()
+}
+
+// ---------------------------------------------------------------------------------------------
+
+fn run(rep: &Report) {
+    let quick = rep.tier == Tier::Quick;
+    let un = universe();
+    let u: Vec<Leaf> = un.iter().map(|x| x.1).collect();
+    let outs: Vec<Leaf> = outsiders().iter().map(|x| x.1).collect();
+    let items: Vec<Leaf> = u.iter().chain(outs.iter()).copied().collect();
+
+    rep.set_rule(&format!(
+        "U = 12 leaves (all eight 3-bit prefixes; pairs differing only in bit 255 / 254 / 128; 00..00, ff..ff), items = U + 4 outsiders. \
+         (1) roots: all 4096 subsets in 6 orders/duplications, plus every permutation and every permutation with one element duplicated (<=3 leaves: also triplicated) of all subsets with <= 4 leaves, through compute_merkle_set_root and MerkleSet::from_leafs().get_root() against the reference trie hash. \
+         (2) all 4096 subsets x 16 items x 2 construction orders: generate_proof states membership correctly and validate_merkle_proof accepts it. \
+         (3a) every proof tree with <= {} MIDDLE nodes whose leaves are EMPTY | TERMINAL x (5 shallow leaves + 1 outsider) | TRUNCATED h (every honest subtree hash of the set, its root, BLANK, its leaf values), for all 32 subsets of the shallow 5-leaf universe x 7 items. \
+         (3b) every single-step rewrite (swap children, truncate subtree, expand truncated fully/one level, add/drop/mirror (EMPTY,X) chain levels, retype or replace a leaf) of every honest proof: {}; plus every token-boundary(+-1 byte) prefix and 11 trailing-byte extensions on the sub-universe. \
+         (3c) chains of 250..258 MIDDLE levels (left or right, three kinds of top sibling) ending in every tree with <= {} MIDDLE nodes over the same kind of alphabet, for all 31 non-empty subsets of {{Z,Z1,Z2,F1,F}} x 8 items. \
+         distinct = subsets (1), (subset,item) pairs (2), and every different candidate proof that passed the root check (3).",
+        if quick { 3 } else { 4 },
+        if quick {
+            "all subsets of the 7-leaf sub-universe {Z,Z1,Z2,P2,P4,P4b,F} x 16 items, each rewrite validated against all 16 items"
+        } else {
+            "all 4096 subsets x 16 items with each rewrite validated against the proof's own item, and all subsets of the 8-leaf sub-universe {Z,Z1,Z2,P2,P4,P4b,F1,F} with each rewrite validated against all 16 items and second-order rewrites of proofs with <= 12 tokens"
+        },
+        if quick { 1 } else { 2 },
+    ));
+    rep.assume("SHA-256 (sha2 crate) is collision free on the enumerated inputs; soundness against proofs outside the enumerated families rests on that and is not established here");
+    rep.assume("reference trie hash written from the format description in tests/merkle_set.py (two-leaf sub-tries hash as H(1,1,min,max) at any depth; >=3-leaf sub-tries hash every level)");
+    rep.assume("accepting an honest proof followed by trailing bytes would not contradict the property as long as the stated membership is right; such cases are only counted (bucket trailing/accepted-*)");
+
+    // development aid: C12_ONLY=1,2,3a,3c runs a subset of the phases (recorded as a cap, never exhaustive)
+    let only = std::env::var("C12_ONLY").ok();
+    if let Some(o) = &only {
+        rep.cap(&format!("C12_ONLY={o}: only these phases were run"));
+    }
+    let on = |p: &str| only.as_ref().is_none_or(|o| o.split(',').any(|x| x == p));
+    let t0 = std::time::Instant::now();
+    let lap = |what: &str| {
+        if std::env::var("C12_TIMING").is_ok() {
+            eprintln!("[c12] {what} done at {:.1}s", t0.elapsed().as_secs_f64());
+        }
+    };
+
+    // (1)
+    if on("1") {
+        phase_roots(rep, &u);
+    }
+    lap("roots");
+    rep.sample(json!({"phase":"root","set":["Z","Z1","Z2"],"reference_root":hex::encode(ref_root(&sorted_set(&[u[0],u[1],u[2]]))),"note":"254 hashed (MIDDLE,EMPTY) levels above (two-leaf node, Z2)"}));
+
+    // (2) + (3b)
+    let name_mask = |names: &[&str]| -> u32 { names.iter().map(|n| 1u32 << un.iter().position(|x| x.0 == *n).unwrap()).sum() };
+    // rewrites of the proofs over U: sets within a sub-universe holding all the deep pairs
+    let sub_mask = if quick { name_mask(&["Z", "Z1", "Z2", "F1", "F"]) } else { name_mask(&["Z", "Z1", "Z2", "P2", "P4", "P4b", "F1", "F"]) };
+    if on("2") {
+        let jobs: Vec<ProofJob> = (0u32..1 << u.len()).map(|mask| ProofJob { mask, rewrites: mask & !sub_mask == 0, second_order: false }).collect();
+        phase_proofs(rep, "U", &u, &items, &jobs);
+    }
+    lap("proofs+rewrites over U");
+    if on("3b") {
+        let w = medium_universe();
+        let witems: Vec<Leaf> = w.iter().copied().chain(medium_outsiders()).collect();
+        let jobs: Vec<ProofJob> = (0u32..1 << w.len()).map(|mask| ProofJob { mask, rewrites: true, second_order: !quick }).collect();
+        phase_proofs(rep, "W", &w, &witems, &jobs);
+    }
+    lap("proofs+rewrites over W");
+    {
+        let set = sorted_set(&[u[0], u[1], u[9]]);
+        let mut s = set.clone();
+        let t = MerkleSet::from_leafs(&mut s);
+        let (inc, p) = t.generate_proof(&u[0]).unwrap();
+        rep.sample(json!({"phase":"complete","set":["Z","Z1","P6"],"item":"Z","stated_included":inc,"proof_bytes":p.len(),"proof_tokens":parse(&p).map(|t| t.len())}));
+    }
+
+    // (3a)
+    if on("3a") {
+        let total_trees = phase_trees(rep, if quick { 3 } else { 4 });
+        rep.extra("enumerated_proof_trees", json!(total_trees));
+    }
+    lap("trees");
+    rep.sample(json!({"phase":"tree","set":"{c0.., e0..}","candidate":"MIDDLE(MIDDLE(TERMINAL c0.., TERMINAL e0..), EMPTY)","why":"same collapsed hash as the honest MIDDLE(EMPTY, MIDDLE(EMPTY, MIDDLE(c0,e0))); only the leaf-position audit rejects it"}));
+    rep.sample(json!({"phase":"tree","set":"{c0.., e0..}","candidate":"MIDDLE(TRUNCATED root, EMPTY)","why":"would verify and prove exclusion of c0 if TRUNCATED were treated as a collapsible two-leaf node"}));
+
+    // (3c)
+    if on("3c") {
+        let total_deep = phase_depth(rep, quick);
+        rep.extra("enumerated_deep_chain_proofs", json!(total_deep));
+    }
+    lap("deep chains");
+    rep.sample(json!({"phase":"deep","set":["Z","Z1"],"candidate":"256 x MIDDLE(.,EMPTY) then MIDDLE(TERMINAL Z, TERMINAL Z1)","why":"one level deeper than any real leaf: position 256 of the route is compared with bit 0 (u8 wrap) in the audit"}));
+}
+
+fn replay(case: &Value) -> String {
+    let leaves = |v: &Value| -> Vec<Leaf> { v.as_array().map(|a| a.iter().map(|s| hex::decode(s.as_str().unwrap()).unwrap().try_into().unwrap()).collect()).unwrap_or_default() };
+    match case["kind"].as_str() {
+        Some("root") => {
+            let seq = leaves(&case["seq"]);
+            let want = ref_root(&sorted_set(&seq));
+            let mut s1 = seq.clone();
+            let r1 = catch(|| compute_merkle_set_root(&mut s1));
+            let mut s2 = seq.clone();
+            let r2 = catch(|| MerkleSet::from_leafs(&mut s2).get_root());
+            format!("compute_merkle_set_root = {:?}\nfrom_leafs().get_root() = {:?}\nreference = {}", r1.map(hex::encode), r2.map(hex::encode), hex::encode(want))
+        }
+        Some("proof") => {
+            let set = sorted_set(&leaves(&case["set"]));
+            let item: Leaf = hex::decode(case["item"].as_str().unwrap()).unwrap().try_into().unwrap();
+            let proof = hex::decode(case["proof"].as_str().unwrap()).unwrap();
+            let root = ref_root(&set);
+            let v = real_validate(&proof, &item, &root);
+            format!(
+                "set of {} leaves, reference root {}\nitem {} is {}in the set\nvalidate_merkle_proof(candidate, item, root) = {v:?}\nexpected: Err or Ok({})",
+                set.len(),
+                hex::encode(root),
+                hex::encode(item),
+                if set.contains(&item) { "" } else { "NOT " },
+                set.contains(&item)
+            )
+        }
+        Some("honest") => {
+            let set = sorted_set(&leaves(&case["set"]));
+            let item: Leaf = hex::decode(case["item"].as_str().unwrap()).unwrap().try_into().unwrap();
+            let mut seq: Vec<Leaf> = if case["order"] == "ascending" { set.clone() } else { set.iter().rev().chain(set.iter()).copied().collect() };
+            let r = catch(|| {
+                let t = MerkleSet::from_leafs(&mut seq);
+                let root = t.get_root();
+                let gp = t.generate_proof(&item).ok();
+                let v = gp.as_ref().map(|(_, p)| real_validate(p, &item, &root));
+                (root, gp, v)
+            });
+            match r {
+                Ok((root, gp, v)) => format!(
+                    "tree root {} (reference {})\ngenerate_proof = {:?}\nvalidate = {v:?}; item in set: {}",
+                    hex::encode(root),
+                    hex::encode(ref_root(&set)),
+                    gp.map(|(i, p)| (i, hex::encode(p))),
+                    set.contains(&item)
+                ),
+                Err(p) => format!("panic: {p}"),
+            }
+        }
+        _ => "unknown case kind".into(),
+    }
+}
+
+fn main() {
+    mc::cli::main("C12MUT", "exploration", run, replay)
 }
